@@ -543,7 +543,17 @@ def tx1_import(run, fi):
 
 
 # ---------------------------------------------------------------------------------------------- 2-D file helpers
-def file_helpers(m, run):
+def file_helpers(m, run, which=('pure', 'file')):
+    """the converters and their X_file variants are decided on monomial cells (CV3); the syntactic rules on the X_file bodies corroborate"""
+    from .. import skel_drivers as _sd
+    n0 = len(run.obs)
+    _sd.cv3(m, run, which)
+    ok = all(o.ok for o in run.obs[n0:])
+    with run.corroborating(ok, 'CV3', rules=('FH1.file-variant-applies-its-helper', 'LY3f.saved-sizes')):
+        _file_helpers_syntactic(m, run)
+
+
+def _file_helpers_syntactic(m, run):
     """X_file helpers: the array handed to _save_ctrlpts2d_file(arr, size_u, size_v) is [size_u][size_v]"""
     for name, transforms in (('flip_ctrlpts2d_file', True), ('generate_ctrlptsw2d_file', False), ('generate_ctrlpts2d_weights_file', False)):
         fi = m.func('compatibility.' + name)
